@@ -6,6 +6,8 @@ package caskethttp
 import (
 	"github.com/tmpim/casket"
 	"github.com/tmpim/casket/casketfile"
+	"github.com/tmpim/casket/caskethttp/httpserver"
+	"github.com/tmpim/casket/caskettls"
 	"github.com/tmpim/casket/zzverif/verifrt"
 )
 
@@ -41,6 +43,11 @@ func zzSetupTotal(dir, pkg string, keywords []string) {
 			toks = append(toks, tok(1, "/"), tok(1, "{"), tok(2, keywords[verifrt.Choose("k", len(keywords))]), tok(2, d), tok(3, "}"))
 		}
 	case 0: // dir
+		if verifrt.Bool("same-line-twice") {
+			// the same directive line written twice (two sites importing one snippet, or a repeated line)
+			t1, t2 := pick("t1"), pick("t2")
+			toks = append(toks, tok(1, t1), tok(1, t2), tok(2, dir), tok(2, t1), tok(2, t2))
+		}
 	case 1: // dir T1 [T2]
 		toks = append(toks, tok(1, pick("t1")))
 		if verifrt.Bool("second") {
@@ -72,7 +79,22 @@ func zzSetupTotal(dir, pkg string, keywords []string) {
 		verifrt.Fail("directive-registered")
 		return
 	}
+	for _, t := range toks {
+		if dir == "tls" && t.Text == "clients" {
+			// client CA files are only opened when the listener is built: the input class of the recorded
+			// known finding (validation accepts a `clients` file that a start then fails to read)
+			verifrt.Tag("tls-clients-ca-file")
+		}
+	}
 	err = setup(c) // a panic escaping here is the violation
+	if err == nil && dir == "tls" {
+		// validation stops here; a real start goes on to build the listener's TLS configuration from
+		// what the directive stored. Both must agree on whether the directive is acceptable.
+		if cfg := httpserver.GetConfig(c).TLS; cfg != nil && cfg.Enabled {
+			_, serr := caskettls.MakeTLSConfig([]*caskettls.Config{cfg})
+			verifrt.Assert(serr == nil, "start-accepts-what-validate-accepted")
+		}
+	}
 	// goroutines the setup started run until they block; a panic there crashes the server too
 	verifrt.DrainGoroutines()
 	// tls `load <dir>` walks the file system: natively that is the machine's real tree (e.g. "/"),
